@@ -31,7 +31,7 @@ theorem startLazy_spec (cfg : Cfg) (src : Src) (ovr : Option Exec) (ctx : Option
   | unit => simp [startLazy, startSrc, specSrc]
   | sharedReady r => simp [startLazy, startSrc, specSrc]
   | sharedContract p f => simp [startLazy, startSrc, specSrc, specFire]
-  | sharedKept p f pre => cases h : g.isSet p pre <;> simp [startLazy, startSrc, h, specSrc, specFire]
+  | sharedKept e p f pre => cases h : g.isSet p pre <;> simp [startLazy, startSrc, h, specSrc, specFire]
 
 /-- a cascade whose outcome denotes `spec p'` comes to rest in a state satisfying the invariant -/
 theorem inv_settle (cfg : Cfg) (st0 : State) (o : Out) (p' : Prog) (h' : Handle)
